@@ -207,3 +207,38 @@ Qed.
 
 Lemma swept_init : swept init 0.
 Proof. unfold swept, init; simpl. split; [lia|]. split; [lia|]. intros m []. Qed.
+
+(** ** no ready message is starved while capacity is requested: when the clamped batch is at least the
+    number of ready messages, every ready message is returned *)
+Lemma filter_ids_NoDup (p : msg -> bool) l : NoDup (ids l) -> NoDup (ids (filter p l)).
+Proof.
+  induction l as [|a tl IH]; simpl; intros ND; [constructor|]. inversion ND as [|? ? Ha Htl]; subst.
+  destruct (p a); simpl; [constructor|]; try (apply IH; exact Htl).
+  intros Hin. apply Ha. unfold ids in *. apply in_map_iff in Hin. destruct Hin as [y [Ey Hy]]. apply filter_In in Hy.
+  apply in_map_iff. exists y. split; [exact Ey | apply Hy].
+Qed.
+
+Theorem dequeue_returns_all_when_capacity fl c now route target batch ttl o s s' items m :
+  Inv s -> step_dequeue fl c now route target batch ttl o s = (s', RItems items) ->
+  let s2 := deq_pre fl c now o s in
+  Z.of_nat (length (filter (ready now route target) (msgs s2))) <= clamp_batch batch ->
+  In m (msgs s2) -> ready now route target m = true ->
+  In (m_id m) (map (fun it => fst (fst (fst it))) items).
+Proof.
+  intros I H s2 Hcap Hm Hr.
+  pose proof (deq_pre_inv fl c now o s I) as I2. fold s2 in I2.
+  destruct (dequeue_sound fl c now route target batch ttl o s s' items I H) as [A [_ [Len Hall]]]. fold s2 in Len, Hall.
+  set (rids := ids (filter (ready now route target) (msgs s2))).
+  set (pids := map (fun it : N * N * Z * Z => fst (fst (fst it))) items).
+  assert (NDr : NoDup rids) by (apply filter_ids_NoDup; apply I2).
+  assert (Hlen : (length rids <= length pids)%nat).
+  { unfold rids, pids, ids. rewrite !map_length. lia. }
+  assert (Hincl : incl pids rids).
+  { intros i Hi. unfold pids in Hi. apply in_map_iff in Hi. destruct Hi as [[[[i0 l0] a0] u0] [Ei Hit]]. simpl in Ei. subst i0.
+    destruct (Hall _ _ _ _ Hit) as [m0 [F [R _]]]. apply find_id_Some in F. destruct F as [Hin Eid]. subst i.
+    unfold rids, ids. apply in_map. apply filter_In. split; assumption. }
+  (* a duplicate-free list of at least the same length that is included covers the other one *)
+  assert (Hback : incl rids pids).
+  { apply (@NoDup_length_incl N pids rids A Hlen Hincl). }
+  apply Hback. unfold rids, ids. apply in_map. apply filter_In. split; assumption.
+Qed.
